@@ -59,6 +59,7 @@ pub struct MonState {
     pub folds_multi:     u64,
     pub want_folds:      bool,
     pub folds:           Vec<J>,
+    pub folds_tail:      std::collections::VecDeque<J>,
     // the simulated FIFO queue of threads: index of the running thread and number of threads ever created
     pub thread_now:      u64,
     pub threads_created: u64,
@@ -95,6 +96,7 @@ impl MonState {
             folds_multi: 0,
             want_folds: false,
             folds: Vec::new(),
+            folds_tail: std::collections::VecDeque::new(),
             thread_now: 0,
             threads_created: 1,
         }
@@ -283,9 +285,18 @@ impl Monitor for DriverMonitor {
                 Some(order.clone())
             }
         };
-        if s.want_folds && evidence.len() > 1 && s.folds.len() < 2000 {
+        if s.want_folds && evidence.len() > 1 {
+            // keep the first 600 and the most recent 600 multi-evidence folds
             let ev: Vec<&String> = order.iter().map(|&i| &evidence[i]).collect();
-            s.folds.push(json!({"root": root, "evidence": ev}));
+            let item = json!({"root": root, "evidence": ev, "round": s.round_count});
+            if s.folds.len() < 600 {
+                s.folds.push(item);
+            } else {
+                if s.folds_tail.len() >= 600 {
+                    s.folds_tail.pop_front();
+                }
+                s.folds_tail.push_back(item);
+            }
         }
         result
     }
